@@ -66,7 +66,11 @@ def repo_fingerprint():
 CLOCK_PATCHES = {
     "main.go": [("return float64(time.Now().UnixNano()) / float64(time.Second)", "return float64(verifNow().UnixNano()) / float64(time.Second)", 1)],
     "datastoreset.go": [("float64(time.Now().Unix()-MinFullScanInterval)", "float64(verifNow().Unix()-MinFullScanInterval)", 1),
-                        ('time.Now().Format("4")', 'verifNow().Format("4")', 1)],
+                        ('time.Now().Format("4")', 'verifNow().Format("4")', 1),
+                        # Go walks the map of changed timeperiods in a random order; which refresh an aborted run still did would
+                        # differ from run to run.  The harness build walks it by name (the model does the same); the orders are
+                        # symmetric under renaming the periods.  Optional: a tree that words the loop differently keeps its own order.
+                        ("for name, state := range changedTimeperiods {", "for _, name := range verifSortedKeys(changedTimeperiods) {\n\t\tstate := changedTimeperiods[name]", -1)],
     "peer.go": [('time.Now().Format("4")', 'verifNow().Format("4")', 2),
                 ("diff := time.Since(ts)", "diff := verifNow().Sub(ts)", 1),
                 # the update loop looks at the clock every 500 ms; the concurrency soak lets virtual time run faster and shortens this
@@ -88,7 +92,10 @@ def write_overlay():
         src = os.path.join(REPO, "pkg", "lmd", name)
         text = open(src, encoding="utf-8").read()
         for old, new, count in patches:
-            if text.count(old) != count:
+            if count < 0:
+                if text.count(old) != 1:
+                    continue
+            elif text.count(old) != count:
                 raise OverlayError("clock hook: expected %d occurrence(s) of %r in %s, found %d" % (count, old, name, text.count(old)))
             text = text.replace(old, new)
         dst = os.path.join(odir, name)
